@@ -550,6 +550,10 @@ func Run(c *core.Case, id string) {
 			ndb = dbC
 		}
 		outPath := dir + ".out.json"
+		if keep := os.Getenv("C21_KEEP_IMAGES"); keep != "" {
+			// debugging aid: keep a copy of every crash image
+			_ = exec.Command("cp", "-r", dir, filepath.Join(keep, fmt.Sprintf("s%d-p%d", s.Seed, pi))).Run()
+		}
 		verr, vout := runChild("c21verify", dir, outPath, strconv.Itoa(ngroups), strconv.Itoa(ndb))
 		var rec recovered
 		rb, rerr := os.ReadFile(outPath)
